@@ -217,9 +217,12 @@ JudgeRun(o) ==
     deterministic_across_processes |-> o.bitsX = <<>> \/ o.bitsX = o.bitsA ]
 
 \* A selection observation `s` (one call of force_algorithm seen through a wrapper of the layout function):
-\*   tried  <<kappa * 1000, cost, layout, rank>> for every spring constant it tried, in order; cost = the library's
+\*   tried  <<kappa * 1000, cost, layout, rank, iterations>> for every spring constant it tried, in order; cost = the library's
 \*          own total_intersection_area + wire_length / 2 of that layout, scaled so that the largest is 1e8; rank =
-\*          position of the unscaled cost in the exact order of the costs (used for conformance only)
+\*          position of the unscaled cost in the exact order of the costs (used for conformance only); iterations = the max_iter
+\*          the try was run with (conformance only; n = the max_iter the caller asked for)
+\* A try that is run with another iteration count than the caller asked for yields another layout than the final run
+\* with the winning constant: the returned layout then equals no try and best_of fails -- no extra clause is needed.
 \*   lay    layout (bit patterns) of the die it finally returned
 \* "the layout finally returned is the one whose cost is smallest among the spring constants it tries"
 TOLCOST == 1
@@ -233,6 +236,7 @@ SelDrift(s) ==
   LET cs == [ j \in DOMAIN s.tried |-> s.tried[j][4] ] IN      \* exact ranks of the costs (1 = smallest)
   (IF Len(s.tried) > 0 /\ s.tried[FirstArgMin(cs)][3] # s.lay THEN {"first_minimum"} ELSE {})
   \cup (IF [ j \in DOMAIN s.tried |-> s.tried[j][1] ] # [ j \in 1..12 |-> 300 + 100 * j ] THEN {"kappas"} ELSE {})
+  \cup (IF \E j \in DOMAIN s.tried : s.tried[j][5] # s.n THEN {"try_not_run_with_the_requested_iterations"} ELSE {})
 
 Failing(rec) == { c \in DOMAIN rec : ~rec[c] }
 =============================================================================
